@@ -779,7 +779,7 @@ class HierarchicalMachine(Machine):
         # remove trigger from models if no transition is left for trigger
         if not self.get_transitions(trigger):
             for model in self.models:
-                delattr(model, trigger)
+                self._remove_trigger_from_model(trigger, model)
 
     def _can_trigger(self, model, trigger, *args, **kwargs):
         state_tree = self.build_state_tree(getattr(model, self.model_attribute), self.state_cls.separator)
